@@ -54,6 +54,18 @@ structure MethodFact where
   concurrent : Bool     -- callable while worker goroutines run
 deriving DecidableEq, Repr
 
+/-- a reference-typed field of the result of a Copy-style method: does it share state with the original? -/
+structure CopyFact where
+  file  : String
+  line  : Nat
+  fn    : String
+  field : String
+  fresh : Bool     -- made anew (make / literal / Copy() of the field / nil) on every path
+  how   : String
+deriving DecidableEq, Repr
+
+def CopyFact.site (f : CopyFact) : String := "copyshare:" ++ f.file ++ ":" ++ f.fn ++ ":" ++ f.field
+
 /-! ## Executions -/
 
 abbrev LockId := Nat
